@@ -21,7 +21,24 @@ type ContentHasher func(*types.Stat) (hash.Hash, error)
 
 func getWalkerFn(root string) walkerFn {
 	return func(ctx context.Context, pathC chan<- *currentPath) error {
-		return errors.Wrap(Walk(ctx, root, nil, func(path string, f os.FileInfo, err error) error {
+		// An entry is handed over only once the walk has moved past it, that is, for a
+		// directory, after the directory has been opened and read. The consumer may replace
+		// the entry as soon as it has seen it, and opening what has taken the place of a
+		// directory can block forever (a FIFO).
+		var pending *currentPath
+		flush := func() error {
+			if pending == nil {
+				return nil
+			}
+			select {
+			case <-ctx.Done():
+				return ctx.Err()
+			case pathC <- pending:
+				pending = nil
+				return nil
+			}
+		}
+		err := Walk(ctx, root, nil, func(path string, f os.FileInfo, err error) error {
 			if err != nil {
 				return err
 			}
@@ -31,18 +48,19 @@ func getWalkerFn(root string) walkerFn {
 				return errors.Errorf("%T invalid file without stat information", f.Sys())
 			}
 
-			p := &currentPath{
+			if err := flush(); err != nil {
+				return err
+			}
+			pending = &currentPath{
 				path: path,
 				stat: stat,
 			}
-
-			select {
-			case <-ctx.Done():
-				return ctx.Err()
-			case pathC <- p:
-				return nil
-			}
-		}), "failed to walk")
+			return nil
+		})
+		if err == nil {
+			err = flush()
+		}
+		return errors.Wrap(err, "failed to walk")
 	}
 }
 
